@@ -152,3 +152,82 @@ Proof.
   - intros k ->. reflexivity.
   - intros ->. reflexivity.
 Qed.
+
+(* ------------------------------------------------------------------ *)
+(* (f) a list option is one line: every index once, in order           *)
+(* ------------------------------------------------------------------ *)
+Lemma C19_list_line_pf : forall fmt name k flags vals sub def comment cbs pff d,
+  scalar_kind k = true -> has flags CFGF_LIST = true ->
+  let o := Opt name k flags vals sub def comment cbs in
+  print_opt fmt o pff d =
+  annotation flags comment d ++ indent_str d ++ cstr name ++ M " = {" ++
+  sep_by (M ", ") (map (print_value fmt o) (seq 0 (length vals))) ++ M "}" ++ [nl].
+Proof.
+  intros fmt name k flags vals sub def comment cbs pff d Hk Hl o. subst o.
+  destruct k; try discriminate Hk; cbn [print_opt]; rewrite Hl; reflexivity.
+Qed.
+
+(* ------------------------------------------------------------------ *)
+(* (g) a set scalar is one uncommented line name=value                 *)
+(* ------------------------------------------------------------------ *)
+Definition null_string_value (k : kind) (vals : list value) : bool :=
+  kind_eqb k KStr && match nth_error vals 0 with Some (VStr (Some _)) => false | _ => true end.
+
+Lemma C19_set_scalar_line_pf : forall fmt name k flags v vals sub def comment cbs pff d,
+  scalar_kind k = true -> has flags CFGF_LIST = false ->
+  null_string_value k (v :: vals) = false ->
+  let o := Opt name k flags (v :: vals) sub def comment cbs in
+  print_opt fmt o pff d =
+  annotation flags comment d ++ indent_str d ++ cstr name ++ M "=" ++ print_value fmt o 0 ++ [nl].
+Proof.
+  intros fmt name k flags v vals sub def comment cbs pff d Hk Hl Hn o. subst o.
+  unfold null_string_value in Hn.
+  destruct k; try discriminate Hk; cbn [print_opt]; rewrite Hl; cbn [length Nat.eqb orb];
+    rewrite Hn; reflexivity.
+Qed.
+
+(* a string option whose value is NULL is commented out like an unset one *)
+Lemma C19_null_string_commented_pf : forall fmt name flags vals sub def comment cbs pff d,
+  has flags CFGF_LIST = false ->
+  null_string_value KStr vals = true ->
+  let o := Opt name KStr flags vals sub def comment cbs in
+  print_opt fmt o pff d =
+  annotation flags comment d ++ indent_str d ++ M "# " ++ cstr name ++ M "=" ++ print_value fmt o 0 ++ [nl].
+Proof.
+  intros fmt name flags vals sub def comment cbs pff d Hl Hn o. subst o.
+  unfold null_string_value in Hn.
+  cbn [print_opt]; rewrite Hl, Hn, orb_true_r; reflexivity.
+Qed.
+
+(* ------------------------------------------------------------------ *)
+(* (h) functions and untyped options print only through a callback     *)
+(* ------------------------------------------------------------------ *)
+Lemma C19_func_line_pf : forall fmt name k flags vals sub def comment cbs pff d,
+  (k = KFunc \/ k = KNone) ->
+  let o := Opt name k flags vals sub def comment cbs in
+  print_opt fmt o pff d =
+  annotation flags comment d ++
+  match cb_print cbs with Some _ => indent_str d ++ pf_text o 0 ++ [nl] | None => [] end.
+Proof.
+  intros fmt name k flags vals sub def comment cbs pff d [-> | ->] o; subst o; reflexivity.
+Qed.
+
+(* ------------------------------------------------------------------ *)
+(* (i) depth: the indentation is two spaces per level, and a nested    *)
+(*     context is printed exactly one level deeper                     *)
+(* ------------------------------------------------------------------ *)
+Lemma indent_str_length : forall d, length (indent_str d) = 2 * d.
+Proof.
+  induction d as [|d IH]; [reflexivity|].
+  unfold indent_str in *. cbn [repeat concat]. rewrite app_length, IH. cbn. lia.
+Qed.
+
+Lemma indent_str_spaces : forall d, Forall (fun b => b = x20) (indent_str d).
+Proof.
+  induction d as [|d IH]; [constructor|].
+  unfold indent_str in *. cbn [repeat concat]. apply Forall_app. split; [|exact IH].
+  repeat constructor.
+Qed.
+
+Lemma indent_str_S : forall d, indent_str (S d) = M "  " ++ indent_str d.
+Proof. reflexivity. Qed.
